@@ -96,3 +96,4 @@ pub assume_specification[ f32::is_finite ](x: f32) -> (r: bool)
     ensures
         r == f32_finite(x),
 ;
+
